@@ -123,7 +123,8 @@ func (c01) Exec(seed int64, i int, tier string) Record {
 	}
 	rec.Q = []LeanQ{{Driver: "spec", Line: "(q run " + p.Sexp() + " " + ValSexp(doc) + ")", Expect: exp, What: "result vs Spec.run"},
 		{Driver: "impl", Line: "(q errk f " + p.Sexp() + " " + ValSexp(doc) + ")", Expect: out.ImplExpect(false), What: "result vs Impl.run"},
-		{Driver: "impl", Line: "(q tree f " + p.Sexp() + ")", Expect: "(q " + tree[1:], What: "parsed tree vs Build.build"}}
+		{Driver: "impl", Line: "(q tree f " + p.Sexp() + ")", Expect: "(q " + tree[1:], What: "parsed tree vs Build.build"},
+		{Driver: "impl", Line: "(q den f " + p.Sexp() + " " + ValSexp(doc) + ")", Expect: exp, What: "result vs TSem.run (tree-level denotation)"}}
 	// non-trivial: selects ≥1 value through ≥2 steps or a filter / `..` / function
 	nontriv := false
 	if out.OK {
